@@ -5,7 +5,7 @@ CONSTANTS
   NFiles = 1
   SecondHandle = TRUE
   MaxSize = 3
-  MaxOps = 4
+  MaxOps = 3
   MaxPuts = 3
   AllowFail = FALSE
   MaxHist = 0
